@@ -78,7 +78,7 @@ try:
     UNMODELLED = [c for c in public_classes() if c not in covered_classes()]
 except Exception:
     pass
-REQUIRED_COUNTERS = ['sel', 'dist', 'seatless', 'tie_in_result', 'modelled', 'refusal']
+REQUIRED_COUNTERS = ['sel', 'dist', 'seatless', 'tie_in_result', 'modelled', 'refusal', 'few_votes', 'all_equal']
 RULE = ('every evaluator family built from the public selector/distributor classes of votelib.evaluate.* with its admissible vote type '
         '(simple, approval, ranked incl. shared ranks, score, pairwise through the real converter) x generated profiles with positive '
         'total weight (2-6 candidates) x every 1 <= n_seats <= candidates present. Non-trivial = result is not an error; distinct by '
@@ -101,6 +101,15 @@ def generate(rng, tier):
                 continue
             n = rng.randint(1, max(1, len(cands)))
             yield {'op': 'shape', 'family': f.name, 'prof': prof, 'n': n, '_tags': [f.kind]}
+    # directed: very few votes for many seats (rounded quotas reach 0), ties for the last remainder seat
+    for fam in ['lr_hare_rounded', 'lr_hagenbach_bischoff_rounded', 'lr_droop', 'lr_hare', 'qd_droop']:
+        m = rng.randint(3, 6)
+        vals = [0] * m
+        vals[rng.randrange(m)] = 1
+        yield {'op': 'shape', 'family': fam, 'prof': [[i, str(v)] for i, v in enumerate(vals)], 'n': m, '_tags': ['dist', 'few_votes']}
+        k = rng.randint(1, 3)
+        yield {'op': 'shape', 'family': fam, 'prof': [[i, str(k)] for i in range(m)], 'n': rng.randint(1, m - 1),
+               '_tags': ['dist', 'all_equal']}
     if tier == 'thorough':
         # every n for a fixed profile
         for f in F:
@@ -160,8 +169,22 @@ def oracle(case, obs):
     return out
 
 
+def zero_quota(case):
+    """a registered quota function that evaluates to 0 on this request (rounded quotas with very few votes)"""
+    f = case['family']
+    if not f.startswith(('lr_', 'qd_')):
+        return False
+    import votelib.component.quota as vq
+    try:
+        return vq.construct(f[3:])(sum(Fraction(w) for _, w in case['prof']), case['n']) == 0
+    except Exception:
+        return False
+
+
 def signature(case, clause):
     f = case['family']
+    if clause == 'undeclared_exception:ZeroDivisionError' and zero_quota(case):
+        return 'shape:largest_remainder_family:zero_quota:' + clause
     grp = 'largest_remainder_family' if f.startswith(('lr_', 'qd_')) else 'preference_addition' if f in ('bucklin', 'oklahoma') else 'ranked_pairs' if f.startswith('condorcet_rankedpairs') else f
     return f"shape:{grp}:{clause}"
 
@@ -210,9 +233,9 @@ def sel_unordered(obs):
 
 
 def compare(case, iobs, mobs):
-    if case['family'] in POSITIONAL and has_shared(case['prof']):
+    if (case['family'] in POSITIONAL and has_shared(case['prof'])) or case['family'] in ('approval_av', 'approval_sav'):
         a, b = sel_unordered(iobs), sel_unordered(mobs)
-        return None if a == b else f'impl={json.dumps(a)} model={json.dumps(b)} (order-insensitive: shared ranks)'
+        return None if a == b else f'impl={json.dumps(a)} model={json.dumps(b)} (order-insensitive: frozenset ballots)'
     if case['family'].startswith('condorcet_'):
         import props.C05 as P05
         return P05.compare({'op': 'eval', 'name': case['family'][len('condorcet_'):]}, iobs, mobs)
